@@ -3721,6 +3721,11 @@ def _decode_signed_value_v1(
     if not hmac.compare_digest(parts[2], signature):
         gen_log.warning("Invalid cookie signature %r", value)
         return None
+    if not parts[1].isdigit():
+        # int() would also accept a sign, whitespace or underscores, which
+        # lets bytes be moved across the delimiter without changing the
+        # signed (undelimited) text.
+        return None
     try:
         timestamp = int(parts[1])
     except ValueError:
